@@ -207,12 +207,47 @@ def _init_worker(fn_init):
         fn_init()
 
 
+# One case of a check normally takes milliseconds to a few seconds.  A case that is still running after ITEM_TIMEOUT seconds
+# means the library does not terminate on it (e.g. a loop that no longer advances): the case is abandoned, remembered in
+# TIMEOUTS, and bin/check reports it as a VIOLATION (the run neither returned the specified result nor failed).
+ITEM_TIMEOUT = int(os.environ.get('VERIF_ITEM_TIMEOUT', '600'))
+TIMEOUTS = []
+
+
+class _ItemTimeout(BaseException):        # not an Exception: the library's own `except Exception` must not swallow it
+    pass
+
+
+def _on_alarm(signum, frame):
+    raise _ItemTimeout()
+
+
 def _call(args):
+    import signal
+    import threading
     fn, item = args
+    guarded = threading.current_thread() is threading.main_thread()
+    if guarded:
+        old = signal.signal(signal.SIGALRM, _on_alarm)
+        signal.alarm(ITEM_TIMEOUT)
     try:
         return fn(item)
+    except _ItemTimeout:
+        return {'__harness_error__': 'TIMEOUT: %s did not finish within %d s on %r' % (fn.__name__, ITEM_TIMEOUT, item),
+                '__timeout__': dict(module=fn.__module__, fn=fn.__name__, item=item, seconds=ITEM_TIMEOUT)}
     except Exception as e:  # a harness bug must not look like a verdict
         return {'__harness_error__': '%s: %s\n%s' % (type(e).__name__, e, traceback.format_exc()[-1500:])}
+    finally:
+        if guarded:
+            signal.alarm(0)
+            signal.signal(signal.SIGALRM, old)
+
+
+def _note_timeouts(results):
+    for r in results:
+        if isinstance(r, dict) and '__timeout__' in r:
+            TIMEOUTS.append(r['__timeout__'])
+    return results
 
 
 def pmap(fn, items, procs=None, init=None, chunksize=8):
@@ -222,10 +257,10 @@ def pmap(fn, items, procs=None, init=None, chunksize=8):
     procs = procs or min(os.cpu_count() or 4, 16)
     if procs == 1 or len(items) <= 1 or (len(items) < 24 and not explicit):
         _init_worker(init)
-        return [_call((fn, it)) for it in items]
+        return _note_timeouts([_call((fn, it)) for it in items])
     ctx = mp.get_context('fork')
     with ctx.Pool(procs, initializer=_init_worker, initargs=(init,)) as pool:
-        return pool.map(_call, [(fn, it) for it in items], chunksize=chunksize)
+        return _note_timeouts(pool.map(_call, [(fn, it) for it in items], chunksize=chunksize))
 
 
 def harness_errors(results):
